@@ -28,6 +28,7 @@ FUNCTIONS = ['msdm.core.semimdp.option.augment', 'msdm.core.semimdp.option.Optio
              'msdm.core.semimdp.semimdp.SemiMarkovDecisionProcess.expected_cumulative_reward', 'msdm.core.semimdp.semimdp.SemiMarkovDecisionProcess.run_simulations',
              'msdm.core.semimdp.semimdp.SemiMarkovDecisionProcess.initial_state_dist']
 ASSUMPTIONS = [
+    "tier U: the base MDP's components are uninterpreted (tokens / z3 functions of atoms), so a clause at arbitrary atoms holds for every state, action and successor of every base MDP; sub-goal and initiation sets are uninterpreted membership predicates; DictDistribution.uniform is stubbed (C11 decides it); Option.run_on is verified against the tier-U postcondition of Policy.run_on (C14) instead of its body, builtin len of the roll-out is its step count + 1 (SimulationResult.__len__)",
     'augment: complete case analysis over all 2^5 subsets of overridden functional components (x list overrides for tabular bases), base components symbolic (values identified as terms)',
     'demonic generator for option roll-outs: every sampled history up to the option step limit (<=4) is explored',
     'tier B: MDP skeleton families incl. a base-absorbing state that the option does not declare terminal; simulation counts <=2',
@@ -535,7 +536,7 @@ MANIFEST_ENTRY = dict(
           'every non-overridden component, the discount rate and the lists equal the base), Option.run_on (stops exactly at the first declared-terminal '
           'state, raises only at its step limit, frame), PlanToSubgoalOption.sub_task (clipping, absorbing set, initial distribution, discount) and the '
           'semi-MDP (primitive outcomes with duration 1; option outcome distribution = empirical distribution of its own simulations; marginals).'),
-    note='Bounded skeletons, option step limits <=6, simulation counts <=2 (tier B); run-time tier for planning with the base discount.',
+    note='Bounded skeletons, option step limits <=6, simulation counts <=2 (tier B); run-time tier for planning with the base discount. Tier U: augment / sub_task over an abstract base MDP for all override masks; Option.run_on against the callee contract of Policy.run_on.',
 )
 END_MANIFEST_ENTRY = True
 
